@@ -32,6 +32,15 @@ def gen_history(rng):
     """A registration history: list of modules, each a list of ops."""
     lib = W.gen_steplib(rng, "rich")
     defs = lib["defs"]
+    # the fourth matcher kind: cucumber expressions ({int} {float} {word}, positional only, also
+    # patterns without any parameter)
+    for d in defs:
+        if d["matcher"] == "parse" and rng.random() < 0.35 and \
+                all(t[0] == "lit" or (t[0] == "fld" and t[2] in ("d", "f", "w") and not W.tok_card(t)) for t in d["tokens"]):
+            d["matcher"] = "cuke"
+            for t in d["tokens"]:
+                if t[0] == "fld":
+                    t[1] = ""
     # add deliberate same-type overlaps (must be rejected as ambiguous)
     extra = []
     for d in list(defs):
@@ -93,7 +102,7 @@ def render_module(mod_defs, mi, reload_marker, conv_variant=0):
     cur = "parse"       # the default matcher is in force at the start of every module
     for d in mod_defs:
         if d["matcher"] != cur:
-            lines.append("use_step_matcher(%r)" % d["matcher"])
+            lines.append("use_cuke()" if d["matcher"] == "cuke" else "use_step_matcher(%r)" % d["matcher"])
             cur = d["matcher"]
         lines.append("try:")
         lines.append("    @%s(%r)" % (d["type"], W.render_pattern(d)))
@@ -141,7 +150,9 @@ def evaluate(seed, hashseed, root, stats):
     nops = 0
 
     def load(mi):
-        g = {"use_step_matcher": use_step_matcher, "REG_LOG": reg_log}
+        from behave.cucumber_expression import use_step_matcher_for_cucumber_expressions
+        g = {"use_step_matcher": use_step_matcher, "REG_LOG": reg_log,
+             "use_cuke": use_step_matcher_for_cucumber_expressions}
         setup_step_decorators(g, reg)
         BM.use_current_step_matcher_as_default() if False else None
         exec_file(paths[mi], g)
@@ -280,6 +291,8 @@ def evaluate(seed, hashseed, root, stats):
                 stype = rng.choice(["given", "when", "then"])
             nops += 1
             stats.fired["lookup:" + variant] = stats.fired.get("lookup:" + variant, 0) + 1
+            if d["matcher"] == "cuke":
+                stats.fired["lookup:cucumber-expression"] = stats.fired.get("lookup:cucumber-expression", 0) + 1
             # model lookup: type list first, then generic; earlier first
             chosen = None
             mm = None
